@@ -4,6 +4,7 @@
 use crate::closures::*;
 use crate::scenario::*;
 use crate::tok::{RTok, Tok};
+use orx_concurrent_iter::{ConcurrentIterX, ConcurrentIterable, IntoConcurrentIter, IterIntoConcurrentIter};
 use orx_fixed_vec::FixedVec;
 use orx_parallel::*;
 use orx_split_vec::{Doubling, Linear, PinnedVec, SplitVec};
@@ -194,7 +195,16 @@ pub fn run_pipeline(scn: &Scenario) -> Value {
     match scn.src {
         Src::Vec => {
             let v = make_toks(&scn.vals);
-            let p = set_params(v.into_par(), scn, 0);
+            let p = if scn.pre > 0 {
+                let ci = v.into_con_iter();
+                for _ in 0..scn.pre {
+                    drop(ci.next());
+                }
+                ci.into_par()
+            } else {
+                v.into_par()
+            };
+            let p = set_params(p, scn, 0);
             if is_with_index(scn) {
                 return match shape.as_str() {
                     "" => with_index!(p, scn),
@@ -212,7 +222,16 @@ pub fn run_pipeline(scn: &Scenario) -> Value {
         Src::SliceCloned => {
             let v = make_toks(&scn.vals);
             let r = {
-                let p = set_params(v.par(), scn, 0).cloned();
+                let p = if scn.pre > 0 {
+                    let ci = v.as_slice().into_con_iter();
+                    for _ in 0..scn.pre {
+                        let _ = ci.next();
+                    }
+                    ci.into_par()
+                } else {
+                    v.par()
+                };
+                let p = set_params(p, scn, 0).cloned();
                 chain0(p, scn, 0)
             };
             drop(v);
@@ -220,7 +239,16 @@ pub fn run_pipeline(scn: &Scenario) -> Value {
         }
         Src::Range => {
             let vals = Arc::new(scn.vals.clone());
-            let p = set_params((0..scn.vals.len()).into_par(), scn, 0);
+            let p = if scn.pre > 0 {
+                let ci = (0..scn.vals.len()).con_iter();
+                for _ in 0..scn.pre {
+                    let _ = ci.next();
+                }
+                ci.into_par()
+            } else {
+                (0..scn.vals.len()).into_par()
+            };
+            let p = set_params(p, scn, 0);
             let p = p.map(mk_range_src(vals));
             if is_with_index(scn) {
                 return match shape.as_str() {
@@ -234,7 +262,16 @@ pub fn run_pipeline(scn: &Scenario) -> Value {
         Src::IterExact | Src::IterUnknown | Src::IterEndless => {
             let vals = Arc::new(scn.vals.clone());
             let it: Box<dyn Iterator<Item = Tok>> = Box::new(SrcIter::new(vals, scn.src));
-            let p = set_params(it.par(), scn, 0);
+            let p = if scn.pre > 0 {
+                let ci = it.into_con_iter();
+                for _ in 0..scn.pre {
+                    drop(ci.next());
+                }
+                ci.into_par()
+            } else {
+                it.par()
+            };
+            let p = set_params(p, scn, 0);
             if is_with_index(scn) {
                 return match shape.as_str() {
                     "" => with_index!(p, scn),
